@@ -379,6 +379,10 @@ func (env *SpecEnv) index(a, i Val) (Val, error) {
 			return e.loadAt(env.st, e.elemRef(u.Elem(), a.sBase(), app("bvadd", a.sOff(), idx)), u.Elem()), nil
 		}
 		return e.loadAddr(env.st, &Addr{Kind: aElem, T: u.Elem(), Ref: a.sBase(), Idx: app("bvadd", a.sOff(), idx), Key: "E:" + typeKey(u.Elem())}), nil
+	case *types.Pointer:
+		if arr, ok := u.Elem().Underlying().(*types.Array); ok {
+			return env.index(e.loadAt(env.st, a.S, arr), i)
+		}
 	case *types.Array:
 		idx := e.toBV64(i)
 		var terms []string
@@ -778,6 +782,17 @@ var tokOf map[string]tokenT
 // havocLoc: havoc the heap location denoted by an lvalue expression (modifies clause).
 func (env *SpecEnv) havocLoc(x *SExpr, st *State) error {
 	e := env.e
+	if T, ok := env.typeClause(x); ok {
+		// every field of every object of type T
+		for _, k := range e.keysOfType(T, false) {
+			if srt, known := e.keySort[k]; known {
+				st.heap[k] = e.fresh("Hmod_"+k, srt)
+			} else {
+				e.pendingHavoc(st, k)
+			}
+		}
+		return nil
+	}
 	switch x.Op {
 	case "sel":
 		if _, ok := e.L.specs.Ghosts[x.Tok]; ok {
@@ -848,9 +863,26 @@ func (env *SpecEnv) havocLoc(x *SExpr, st *State) error {
 	return fmt.Errorf("unsupported modifies location %s", x)
 }
 
+// typeClause recognises the modifies form type(T): all fields of all objects of struct type T.
+func (env *SpecEnv) typeClause(x *SExpr) (types.Type, bool) {
+	if x.Op == "call" && x.Args[0].Op == "id" && x.Args[0].Tok == "type" && len(x.Args) == 2 {
+		T, err := env.resolveType(x.Args[1].String())
+		if err == nil {
+			return T, true
+		}
+	}
+	return nil, false
+}
+
 func (e *Exec) keysOfModClause(callee *ssa.Function, m Clause) []string {
 	// static approximation used for loop havoc: derive keys from the field name / type
 	x := m.E
+	if x.Op == "call" && x.Args[0].Op == "id" && x.Args[0].Tok == "type" && len(x.Args) == 2 && callee != nil && pkgOf(callee) != nil {
+		if T, err := e.L.resolveType(pkgOf(callee).Pkg, x.Args[1].String()); err == nil {
+			return e.keysOfType(T, false)
+		}
+		return []string{"*"}
+	}
 	switch x.Op {
 	case "sel":
 		if _, ok := e.L.specs.Ghosts[x.Tok]; ok {
